@@ -51,6 +51,8 @@ func c04store(ev *verifev.Run, root string, def uint) {
 		{"p255", long(255, "x")}, {"p256", long(256, "y")}, {"p257", long(257, "z")},
 		{"esc", "q\"\\/\bé "}, {"sp", " lead and trail "}, {"al@x.org", "alpw"}, {"al", "other"},
 		{"carl", "carl-2"}, {"admin1", "adm"}, {"tnul", "tail\x00"}, {"tlf", "line\n"},
+		// the same word in two encodings, and bytes that are text in no encoding
+		{"latin", "caf\xe9"}, {"utf", "caf\u00e9"}, {"binpw", "\xff\xfe\x80binary"},
 	}
 	for _, u := range users {
 		must(lib.AddUser(u.name, u.pw, u.name == "admin1"))
@@ -63,7 +65,7 @@ func c04store(ev *verifev.Run, root string, def uint) {
 	// unsupported and unreadable records (internal error => denial on every frontend)
 	must(os.WriteFile(filepath.Join(dir, "dora.user"), []byte("argon2id:1:77:AAAA:AAAA\n"), 0600))
 	must(os.Mkdir(filepath.Join(dir, "edir.user"), 0700))
-	names := []string{"bob", "Bob", "bob ", "BOB", "nob", "bob@realm", "al@x.org", "al", "al@x.org@corp", "bob@a@b", "al@x.org@", "@bob", "bob@", "@", "al@@x.org", "dora", "edir", "colon", "colon2", "uni", "nul", "p255", "p256", "p257", "esc", "sp", "carl", "admin1", "", "tnul", "tlf", "bob\x00", "bob\n", "\x00bob", "tnul\x00"}
+	names := []string{"bob", "Bob", "bob ", "BOB", "nob", "bob@realm", "al@x.org", "al", "al@x.org@corp", "bob@a@b", "al@x.org@", "@bob", "bob@", "@", "al@@x.org", "dora", "edir", "colon", "colon2", "uni", "nul", "p255", "p256", "p257", "esc", "sp", "carl", "admin1", "", "tnul", "tlf", "latin", "utf", "binpw", "bob\x00", "bob\n", "\x00bob", "tnul\x00"}
 	var pws []string
 	seen := map[string]bool{}
 	addpw := func(p string) {
@@ -90,6 +92,8 @@ func c04store(ev *verifev.Run, root string, def uint) {
 	addpw(long(257, "y"))
 	addpw("pw")
 	addpw("pw\x00")
+	addpw("caf\ufffd")
+	addpw("\u00ff\u00fe\u0080binary") // the Latin-1 reading of binpw's password, as UTF-8
 
 	// frontends
 	mux, err := newWebHandler(st)
